@@ -9,7 +9,7 @@ from lib import progs, ast_io
 from lib import emitcheck as E
 
 ID = 'C11'
-IMPORTS = E.IMPORTS
+IMPORTS = E.IMPORTS + ['Comp.ShowIR']
 THEOREMS = ['C11_compile_body_total', 'C11_compile_program_total', 'C11_compile_text_cases', 'C11_emit_defs_exact', 'C11_head_keys_spec', 'C11_def_name_determines_key', 'C11_function_frame', 'C11_toplevel_defs', 'C11_text_lines', 'C11_front_lexical', 'C11_text_lines_exact', 'C11_emit_lexemes_valid', 'C11_prefixed_variable_not_reserved', 'C11_too_large_reported', 'C11_accepted_within_limits']
 RULE = ('random programs (2-5 predicates + leaf fact predicates + list-recursion templates; heads with repeated, nested and anonymous '
         'variables; bodies over calls, =, \\=, true, fail, cut, ;, ->, \\+, call/once/findall; quoted atoms with quotes, line breaks, '
@@ -75,7 +75,8 @@ def _case_source(case):
     return ast_io.program_text(case['clauses'])
 
 def model_expr(case):
-    return E.model_text_expr(_case_source(case))
+    # verdict + text, and the intermediate code of an accepted source (Comp/ShowIR.v)
+    return E.model_text_expr(_case_source(case)).replace('(run_compile_text ', '(run_compile_text_ir ', 1)
 
 # ------------------------------------------------------------------ implementation
 
@@ -87,6 +88,14 @@ def impl(case):
     v, text, cls = E.compile_verdict(source)
     out['verdict'] = v
     out['class'] = cls
+    if v == 'text':
+        from lib import py2ir
+        try:
+            out['ir'] = py2ir.text_to_ir(text)
+        except py2ir.NotInSublanguage as e:
+            out['ir_error'] = str(e)
+        except RecursionError:
+            out['ir_error'] = 'RecursionError while parsing'
     if v != 'text':
         out['msg'] = text
         return out
@@ -149,7 +158,17 @@ def impl(case):
     return out
 
 def compare(case, io, mo):
-    return E.compare_verdicts(io['source'], io['verdict'], io.get('text'), mo)
+    r = E.compare_verdicts(io['source'], io['verdict'], io.get('text'), mo[0])
+    if r:
+        return r
+    if io['verdict'] == 'text':
+        # CPython's own parse of the emitted text, mapped back to intermediate code, must be the model's
+        # intermediate code (the object whose semantics Sem/IRSem.v states and the C01/C05/C06 theorems use)
+        if 'ir_error' in io:
+            return 'the emitted text is outside the sub-language of the emitter as CPython parses it: ' + io['ir_error']
+        if io.get('ir') != mo[1]:
+            return 'CPython reads the emitted text as different intermediate code than the model compiler produced'
+    return None
 
 def oracle(case, io):
     if io['verdict'] != 'text':
